@@ -56,12 +56,14 @@ def GoodCtl (s : Vm) (r : Res) : Prop :=
   | .fatal => Ext false s r.2
   | .stuck => False
   | .exit _ => Same s r.2
+  | .yielded => Ext false s r.2 ∧ r.2.callStack = s.callStack
 
 /-- the run-loop discipline of a behaviour started in `s` -/
 def Good (s : Vm) (r : Res) : Prop := GoodCtl s r ∧ Quiet s r
 
 /-- what a Go-side boundary guarantees, for every ending -/
-def ApiGood (s : Vm) (r : Res) : Prop := (r.1 ≠ .stuck ∧ ∀ e, r.1 ≠ .exit e) ∧ Same s r.2 ∧ Quiet s r
+def ApiGood (s : Vm) (r : Res) : Prop :=
+  (r.1 ≠ .stuck ∧ (∀ e, r.1 ≠ .exit e) ∧ r.1 ≠ .yielded) ∧ Same s r.2 ∧ Quiet s r
 
 theorem Same.refl (s : Vm) : Same s s := ⟨rfl, rfl, rfl, rfl, rfl, rfl, rfl, rfl⟩
 
@@ -145,6 +147,7 @@ theorem closeIters_spec {runF : RunF} (HA : HypA runF) : ∀ (items : List IterI
         exact ⟨hsame.trans (ih s1 hI1).1, fun h => ((ih s1 hI1).2 h).trans hq'⟩
       · have hq' : s1.interrupted = s.interrupted := hq (by simp)
         exact ⟨hsame.trans (ih s1 hI1).1, fun h => ((ih s1 hI1).2 h).trans hq'⟩
+      · exact ⟨hsame, by simp⟩
       · exact ⟨hsame, by simp⟩
       · exact ⟨hsame, by simp⟩
       · exact ⟨hsame, by simp⟩
